@@ -10,8 +10,8 @@
        state ([ctl], [op] lists): every Call event IS the corresponding model
        operation, every `if` is decided by the model condition supplied in
        source order ([seq_guards], [eof_guards]); a guard also names the
-       attributes the source must have read for that test (since the last
-       call / test) - extra reads, logging and other harmless edits do not
+       attributes (and the local `ret`) the source must have read for that
+       test (since the last call / test; an assignment is not a read) - extra reads, logging and other harmless edits do not
        matter, a dropped, re-ordered or re-nested test or call does.
    Props/C03.v proves: interpreting the extracted tree = [ctl_step]. *)
 From Coq Require Import String ZArith List Bool Arith.
@@ -106,16 +106,25 @@ Definition note_read (s : ist) (a : string) : ist :=
      i_role := i_role s; i_ops := i_ops s;
      i_flt := if String.eqb a "filter" then [cur (i_k s)] else i_flt s;
      i_reads := a :: i_reads s |}.
+Definition note_write (s : ist) (a : string) : ist :=
+  {| i_k := i_k s; i_ret := i_ret s; i_sid := i_sid s; i_role := i_role s;
+     i_ops := i_ops s;
+     i_flt := if String.eqb a "filter" then [cur (i_k s)] else i_flt s;
+     i_reads := i_reads s |}.
 Definition clear_reads (s : ist) : ist :=
   {| i_k := i_k s; i_ret := i_ret s; i_sid := i_sid s; i_role := i_role s;
      i_ops := i_ops s; i_flt := i_flt s; i_reads := [] |}.
+
+Definition reads_ok (need have : list string) : bool :=
+  forallb (fun a => existsb (String.eqb a) have) need.
 
 (* one event = one model operation.  The role of a stored result is that of
    the sub-definition handled last (start() goes with s_term = s_start,
    stop() with s_term = s_end, s_body.run with s_body). *)
 Definition do_ev (sh : shape) (c : cline) (e : ev) (s : ist) : option ist :=
   match e with
-  | Rd a | Wr a => Some (note_read s a)
+  | Rd a => Some (note_read s a)
+  | Wr a => Some (note_write s a)      (* e.g. `ret = ...`: not a read *)
   | Call f =>
       if String.eqb f "start_run" then Some (upd_ret s (c_start c) RStart)
       else if String.eqb f "end_run" then Some (upd_ret s (c_end c) REnd)
@@ -132,7 +141,10 @@ Definition do_ev (sh : shape) (c : cline) (e : ev) (s : ist) : option ist :=
       then Some (upd_ops s (Remove (i_sid s)))
       else if String.eqb f "results_add"
       then match i_ret s with
-           | Some v => Some (upd_ops s (Add (i_role s) (i_sid s) v))
+           | Some v =>
+               if reads_ok ["ret"] (i_reads s)      (* the match is `ret` *)
+               then Some (upd_ops s (Add (i_role s) (i_sid s) v))
+               else None
            | None => None               (* a result without a match *)
            end
       else None                         (* a call the model does not know *)
@@ -142,8 +154,6 @@ Definition do_ev (sh : shape) (c : cline) (e : ev) (s : ist) : option ist :=
 (* a test: the attributes the source reads for it, and the model condition *)
 Definition guard := (list string * (ist -> bool))%type.
 
-Definition reads_ok (need have : list string) : bool :=
-  forallb (fun a => existsb (String.eqb a) have) need.
 
 Inductive ires := IOk (s : ist) (gs : list guard) (exited : bool) | IErr.
 
@@ -182,10 +192,15 @@ Fixpoint interp (sh : shape) (c : cline) (s : stm) (st : ist)
           if reads_ok need (i_reads st) then
             if cond st then
               match go a (clear_reads st) gs' with
-              | IOk st1 gs1 ex => IOk st1 (skipn (count_ifs_list b) gs1) ex
+              | IOk st1 gs1 ex =>
+                  IOk (clear_reads st1) (skipn (count_ifs_list b) gs1) ex
               | IErr => IErr
               end
-            else go b (clear_reads st) (skipn (count_ifs_list a) gs')
+            else
+              match go b (clear_reads st) (skipn (count_ifs_list a) gs') with
+              | IOk st1 gs1 ex => IOk (clear_reads st1) gs1 ex
+              | IErr => IErr
+              end
           else IErr
       end
   | _ => IErr
@@ -215,9 +230,9 @@ Definition seq_guards (sh : shape) : list guard :=
   [ (* if seq_def.s_end and seq_def.started: *)
     (["s_end"; "started"], fun s => has_end sh && started (i_k s));
     (*     if ret:   (restart) *)
-    ([], has_ret);
+    (["ret"], has_ret);
     (* if ret: *)
-    ([], has_ret);
+    (["ret"], has_ret);
     (*     if not seq_def.started: *)
     (["started"], fun s => negb (started (i_k s)));
     (*         if seq_def.s_end is None: *)
@@ -225,7 +240,7 @@ Definition seq_guards (sh : shape) : list guard :=
     (* elif seq_def.started and seq_def.s_body: *)
     (["started"; "s_body"], fun s => started (i_k s) && has_body sh);
     (*     if ret:   (body) *)
-    ([], has_ret) ].
+    (["ret"], has_ret) ].
 
 (* the whole of _sequence_search for one line: every test used, no early
    exit *)
@@ -245,7 +260,7 @@ Definition eof_guards (sh : shape) : list guard :=
     (* if seq_def.s_end is None: continue *)
     (["s_end"], fun _ => negb (has_end sh));
     (* ret = seq_def.s_end.run(''); if ret: *)
-    ([], has_ret);
+    (["ret"], has_ret);
     (* else: if seq_def.id not in filter_section_id: *)
     (["filter"], fun _ => true) ].
 
